@@ -260,6 +260,11 @@ def checker (model : Bool) : Checker where
                     -- resynchronise on the observation
                     let s' : SegmentLock.State := { s with held := ⟨t, k, write⟩ :: s.held }
                     (.seg size s' held seen, some s!"{name} returned with the lock although the model's mutex of segment {repr (SegmentLock.idx size k)} is not available; holds: {renderHolds s.held}")
+                else if isTry ∧ !write ∧ (SegmentLock.step size s ⟨t, mk true⟩).isSome then
+                  -- "read locks on one key can be shared": the scripted harness runs one call at a time and never
+                  -- makes a call that blocks, so no writer is ever pending; the model's `tryRLock _ false` is
+                  -- lenient about readers (RWMutex.TryRLock may fail when a writer waits), the driver is not
+                  (st, some s!"{name} returned false although the model's mutex of segment {repr (SegmentLock.idx size k)} is not write-locked and no writer is waiting (read locks are shared); holds: {renderHolds s.held}")
                 else if isTry then
                   match SegmentLock.step size s ⟨t, mk false⟩ with
                   | some s' => (.seg size s' held seen, none)
@@ -268,6 +273,10 @@ def checker (model : Bool) : Checker where
                   match SegmentLock.step size s ⟨t, mk true⟩ with
                   | none => (st, none)
                   | some _ => (st, some s!"harness says {name} would block but the model's mutex is available; holds: {renderHolds s.held}")
+              else if isTry ∧ !write ∧ !obtained ∧ !(held.any (·.write)) then
+                -- "read locks on one key can be shared": whatever the hashing, a read attempt can only be refused
+                -- by a write hold (or a waiting writer, which the one-call-at-a-time script never has)
+                (st, some s!"{name} failed although no write lock is held anywhere (read locks are shared); holds: {renderHolds held}")
               else
                 match SegmentLock.Spec.acquire held t k write obtained (isTry && write) with
                 | some held' => (.seg size s held' seen, none)
